@@ -447,12 +447,12 @@ package stree
 //@
 //@ func (*Tree).Inorder
 //@   role yield yield
-//@   requires [C01] treeInv(t) && sizeInv(t)
-//@   ensures  [C01] count: ncalls(yield) >= old(ncalls(yield)) && ncalls(yield) - old(ncalls(yield)) <= t.size
-//@   ensures  [C01] members: forall j int :: {callarg(yield, j)} old(ncalls(yield)) <= j && j < ncalls(yield) ==> rank(t.compare, callarg(yield, j)) in t.elems && callarg(yield, j) == t.vals[rank(t.compare, callarg(yield, j))]
-//@   ensures  [C01] ascending: forall a int, b int :: {callarg(yield, a), callarg(yield, b)} old(ncalls(yield)) <= a && a < b && b < ncalls(yield) ==> rank(t.compare, callarg(yield, a)) < rank(t.compare, callarg(yield, b))
-//@   ensures  [C01] went: forall j int :: {callret(yield, j)} old(ncalls(yield)) <= j && j < ncalls(yield) - 1 ==> callret(yield, j)
-//@   ensures  [C01] all: ncalls(yield) - old(ncalls(yield)) < t.size ==> ncalls(yield) > old(ncalls(yield)) && !callret(yield, ncalls(yield) - 1)
+//@   requires [C01,C04] treeInv(t) && sizeInv(t)
+//@   ensures  [C01,C04] count: ncalls(yield) >= old(ncalls(yield)) && ncalls(yield) - old(ncalls(yield)) <= t.size
+//@   ensures  [C01,C04] members: forall j int :: {callarg(yield, j)} old(ncalls(yield)) <= j && j < ncalls(yield) ==> rank(t.compare, callarg(yield, j)) in t.elems && callarg(yield, j) == t.vals[rank(t.compare, callarg(yield, j))]
+//@   ensures  [C01,C04] ascending: forall a int, b int :: {callarg(yield, a), callarg(yield, b)} old(ncalls(yield)) <= a && a < b && b < ncalls(yield) ==> rank(t.compare, callarg(yield, a)) < rank(t.compare, callarg(yield, b))
+//@   ensures  [C01,C04] went: forall j int :: {callret(yield, j)} old(ncalls(yield)) <= j && j < ncalls(yield) - 1 ==> callret(yield, j)
+//@   ensures  [C01,C04] all: ncalls(yield) - old(ncalls(yield)) < t.size ==> ncalls(yield) > old(ncalls(yield)) && !callret(yield, ncalls(yield) - 1)
 //@   modifies calls(yield)
 //@   call inorder#1: cmp = t.compare
 //@
